@@ -107,6 +107,34 @@ def one_project(job):
             out.append(("localagain", x, v))
         except ninjaparse.ParseError:
             pass
+    if loc and rng.random() < 0.6:
+        # local mode with a partition: the slices of the tuples of ONE start directory are disjoint and cover what the
+        # unpartitioned local run from that directory configures
+        x = rng.choice(loc)
+        n2 = rng.randint(2, 3)
+        kind2 = rng.choice(["count", "count", "hash"])
+        whole = projrun.run_impl(dict(p0, args=x))
+        parts = [projrun.run_impl(dict(p0, args=dict(x, partition=f"{kind2}:{k}/{n2}"))) for k in range(1, n2 + 1)]
+        whole["local_parts"] = parts
+        out.append(("localparts", dict(x, partition=f"{kind2}:*/{n2}"), whole))
+    if "sub1/deep/laze.yml" in p0["files"] and "sub1/laze.yml" in p0["files"] and rng.random() < 0.7:
+        # the same tree with the nested directory listed from the root as `sub1/deep` and as `sub1//deep` / `sub1/./deep`: a start
+        # directory is a directory, however the listing spelled it (implementation-side metamorphic check; the model keeps the spelling)
+        def relisted(spelling):
+            q = copy.deepcopy(p0)
+            for d in q["files"]["sub1/laze.yml"]:
+                if isinstance(d.get("subdirs"), list):
+                    d["subdirs"] = [x for x in d["subdirs"] if x != "deep"]
+                    if not d["subdirs"]:
+                        del d["subdirs"]
+            root = q["files"]["laze-project.yml"][0]
+            root["subdirs"] = list(root.get("subdirs") or []) + [spelling]
+            return q
+        plain = projrun.run_impl(dict(relisted("sub1/deep"), args=dict(p0["args"], local="sub1/deep")))
+        odd_spelling = rng.choice(["sub1//deep", "sub1/./deep", "sub1/deep/", "sub1/deep/."])
+        odd = projrun.run_impl(dict(relisted(odd_spelling), args=dict(p0["args"], local="sub1/deep")))
+        odd["plain_listing"] = plain
+        out.append(("respelled", {"local": "sub1/deep", "subdirs": odd_spelling}, odd))
     if loc and rng.random() < 0.5:
         # an explicit relative --build-dir is a path below the project root wherever laze is started: local mode from a
         # sub-directory writes the same statements as global mode with the same --build-dir
@@ -160,6 +188,28 @@ def judge(chk, p0, r0, vs, n):
                     chk.fail_oracle("indep:build-dir-depends-on-start-dir", f"{a}: statements of {k} differ from the global run with the same --build-dir",
                                     {"project": p0, "args": a, "build": list(k)})
                     return
+            continue
+        if kind == "respelled":
+            pl = r["plain_listing"]
+            if projrun.impl_status(pl) != st or (st == "ok" and tuples(pl) != tuples(r)):
+                chk.fail_oracle("indep:start-dir-spelling", f"local mode from sub1/deep: listed as `{a['subdirs']}` the run is {st} and configures {tuples(r)}, "
+                                f"listed as `sub1/deep` it is {projrun.impl_status(pl)} and configures {tuples(pl)}", {"project": p0, "args": a})
+                return
+            continue
+        if kind == "localparts":
+            if st != "ok":
+                continue
+            parts = r["local_parts"]
+            if any(projrun.impl_status(x) != "ok" for x in parts):
+                chk.fail_oracle("indep:variant-fails", f"{a}: a slice of a local run fails although the unpartitioned local run succeeds", {"project": p0, "args": a})
+                return
+            flat = [t for x in parts for t in tuples(x)]
+            if len(flat) != len(set(flat)):
+                chk.fail_oracle("indep:local-partitions-overlap", f"{a}: the slices of the local run overlap: {[tuples(x) for x in parts]}", {"project": p0, "args": a})
+                return
+            if sorted(flat) != tuples(r):
+                chk.fail_oracle("indep:local-partitions-not-covering", f"{a}: union of the slices {sorted(flat)} != the unpartitioned local run {tuples(r)}", {"project": p0, "args": a})
+                return
             continue
         if kind == "localagain":
             if st == "ok" and tuples(r) != r["first_tuples"]:
